@@ -357,3 +357,79 @@ def vg4(P, C):
     C.ob("VG-4", "convolve", "kernel-not-empty", okk, f.loc(gk[0]["node"]) if gk else f.where(),
          ("an empty kernel throws before any of the %d uses of the kernel arguments" % len(kuses)) if okk else
          ("no throwing guard with n_conv_knots == 0" if len(gk) != 1 else "a use of the kernel is not dominated by the guard: %s" % [f.loc(x) for x in dominated(gk[0], kuses)[:3]]))
+
+
+def uw5(P, C):
+    """UW-5: the prefactor of the transfer matrix is q!(k-1)!/(k+q-1)! and nothing else (no order-dependent sign)."""
+    C.rule("UW-5", "the factor multiplying every blossom is defined once as q!(k-1)!/(k+q-1)! (k = order[dim]+1, q = kernel knots-1) in floating "
+           "point and never modified: in particular no sign that depends on the parity of the order (lemma, DESIGN §5 D33: the convolution of "
+           "non-negative splines is non-negative for every order; replay against numerical integration for orders 0..5)", floor=2)
+    f = [g for g in P.fns("convolve") if g.cls == ts.CLS and g.unit == "driver"][0]
+    fill = [i for i in f.walk() if ts.assign_parts(f, i) and f.k(i) in ("BinaryOperator", "CXXOperatorCallExpr") and
+            "convoluted_blossom" in f.render(i) and not any(ts.assign_parts(f, a) for a in f.ancestors(i))]
+    if len(fill) != 1:
+        raise core.AnalysisBroken("UW-5: the store of the blossom into the transfer matrix was not found (see UW-4)")
+    txt, order = f.alpha(fill[0])
+    rhs = f.strip(ts.assign_parts(f, fill[0])[1])
+    # the factor: left operand of the product whose right operand is the blossom call
+    nid = None
+    if f.k(rhs) == "BinaryOperator" and f.nodes[rhs]["op"] == "*":
+        l = f.strip(f.nodes[rhs]["ch"][0])
+        if f.k(l) == "DeclRefExpr":
+            nid = f.nodes[l]["decl"]["id"]
+    ini = _local_init(f, nid) if nid is not None else None
+
+    def by_def(a):
+        t, o = f.alpha(a)
+        for n_, vid in reversed(list(enumerate(o))):
+            d = _local_init(f, vid)
+            t = t.replace("v%d" % n_, "{%s}" % (f.alpha(d)[0] if d is not None else "?"))
+        return t.replace(" ", "")
+    K, Q = "{(order[$0]+1)}", "{($2-1)}"
+    want = "((double)(factorial(%s)*factorial((%s-1)))/(double)factorial(((%s+%s)-1)))" % (Q, K, K, Q)
+    got = by_def(ini) if ini is not None else None
+    C.ob("UW-5", "convolve", "prefactor-value", got == want, f.loc(ini) if ini is not None else f.where(),
+         "prefactor = %s" % (got if got != want else "q!(k-1)!/(k+q-1)! in floating point"))
+    writes = []
+    for i in f.walk():
+        ap = ts.assign_parts(f, i)
+        if ap:
+            t = f.strip(ap[0])
+            if f.k(t) == "DeclRefExpr" and f.nodes[t]["decl"]["id"] == nid:
+                writes.append(i)
+    C.ob("UW-5", "convolve", "prefactor-not-modified", nid is not None and not writes, f.loc(writes[0]) if writes else f.where(),
+         "the prefactor is never assigned after its definition" if not writes else
+         "the prefactor is modified at %s (%s): a correction that depends on the order changes the sign or size of the convolution for some orders"
+         % (f.loc(writes[0]), f.render(writes[0])[:80]))
+
+
+def uw6(P, C):
+    """UW-6: scale equivariance of the convolution kernels: no absolute tolerance."""
+    C.rule("UW-6", "the numerical kernels of the convolution (divdiff, convoluted_blossom, and convolve's own arithmetic) are equivariant under a "
+           "change of axis units: they contain no floating-point constant other than 0 and +-1, and every ordering comparison of floating "
+           "values is between runtime quantities or against exact 0 — an absolute tolerance (FLT_EPSILON, 1e-9 ...) would make the result "
+           "depend on the units of the knots", floor=3)
+    fns = [("divdiff", P.one("divdiff", file_endswith="convolve.cpp")), ("convoluted_blossom", P.one("convoluted_blossom", file_endswith="convolve.cpp")),
+           ("convolve", [g for g in P.fns("convolve") if g.cls == ts.CLS and g.unit == "driver"][0])]
+    for name, f in fns:
+        consts = []
+        for i in f.walk():
+            n = f.nodes[i]
+            if n["k"] == "FloatingLiteral" and n.get("v") not in (0, 1, -1, 0.0, 1.0, -1.0):
+                consts.append((i, "%s%s" % (n.get("v"), " (%s)" % n["macros"][-1] if n.get("macros") else "")))
+        cmps = []
+        for i in f.walk():
+            n = f.nodes[i]
+            if n["k"] == "BinaryOperator" and n["op"] in ("<", ">", "<=", ">="):
+                l, r = f.strip(n["ch"][0], casts=True), f.strip(n["ch"][1], casts=True)
+                isf = any("double" in f.nodes[x].get("t", "") or "float" in f.nodes[x].get("t", "") for x in (n["ch"][0], n["ch"][1], l, r))
+                if not isf:
+                    continue
+                for side in (l, r):
+                    sn = f.nodes[side]
+                    if sn["k"] in ("FloatingLiteral", "IntegerLiteral") and sn.get("v") not in (0, 0.0):
+                        cmps.append((i, f.render(i)))
+        bad = consts + cmps
+        C.ob("UW-6", name, "no-absolute-tolerance", not bad, f.loc(bad[0][0]) if bad else f.where(),
+             "no floating constant other than 0 and 1; floating comparisons only against 0 or runtime values" if not bad else
+             "absolute constant %s at %s: the result now depends on the units of the knot axis" % (bad[0][1], f.loc(bad[0][0])))
